@@ -5,13 +5,17 @@ package main
 import (
 	"encoding/json"
 	"fmt"
+	"io"
 	"os"
 	"path/filepath"
 	"sort"
 	"strings"
 	"time"
 
+	"github.com/jf-tech/omniparser"
+	"github.com/jf-tech/omniparser/errs"
 	"github.com/jf-tech/omniparser/idr"
+	"github.com/jf-tech/omniparser/transformctx"
 
 	"verifharness/cmd/c04/sx"
 	"verifharness/vh"
@@ -160,6 +164,9 @@ type caseInfo struct {
 // sum.Fail with the case as stable key while it fails).
 var gOpts *vh.Opts
 
+// every apiEvery-th case (by a hash of the case) also goes through the public Transform API
+var apiEvery = 3
+
 func runCase(c *Case, sum *vh.Summary, cw *vh.CaseWriter, verbose bool) caseInfo {
 	var info caseInfo
 	if gOpts != nil {
@@ -223,6 +230,9 @@ func runCase(c *Case, sum *vh.Summary, cw *vh.CaseWriter, verbose bool) caseInfo
 		}
 	} else if verbose {
 		fmt.Println("oracle holds: deliveries equal whole-document selection")
+	}
+	if what == "" && apiEvery > 0 && (len(c.Text)+len(xp))%apiEvery == 0 {
+		apiStream(c, want, sum)
 	}
 	info.Nontrivial = len(want)+rejected > 0
 	info.Hist = append(info.Hist, "format:"+c.Format, fmt.Sprintf("deliveries:%s", bucket(len(want))))
@@ -333,6 +343,86 @@ func genXMLCase(r *vh.Rng, doc []*sx.XN) (*Case, bool) {
 		return nil, false
 	}
 	return &Case{Format: "xml", Text: text, Target: sx.GenTarget(r, sx.XMLVocab(doc), maxFilters, false), Rel: genRel(r)}, true
+}
+
+// ---- the same through the public Transform API ---------------------------------------------------
+
+// apiStream runs the case through omniparser.NewSchema / NewTransform / Read / RawRecord with the
+// target as FINAL_OUTPUT xpath.  The FINAL_OUTPUT object extracts one optional field (an array of
+// the x children), so for many selected nodes the transform result is empty: every selected node
+// must still surface as one record.  Oracle: the RawRecord nodes, in order, are the whole-document
+// selection.
+func apiStream(c *Case, want []string, sum *vh.Summary) {
+	xp, _ := json.Marshal(c.Target.XPath())
+	schema := `{"parser_settings": {"version": "omni.2.1", "file_format_type": "` + c.Format + `"},
+ "transform_declarations": {"FINAL_OUTPUT": {"xpath": ` + string(xp) + `, "object": {
+   "v": {"array": [{"xpath": "x"}]}, "w": {"xpath": "@id"}}}}}`
+	var got []string
+	fin := ""
+	func() {
+		defer func() {
+			if p := recover(); p != nil {
+				fin = fmt.Sprint("panic: ", p)
+			}
+		}()
+		s, err := omniparser.NewSchema("c04-api", strings.NewReader(schema))
+		if err != nil {
+			fin = "schema-rejected"
+			return
+		}
+		t, err := s.NewTransform("in", strings.NewReader(c.Text), &transformctx.Ctx{})
+		if err != nil {
+			fin = "newtransform: " + err.Error()
+			return
+		}
+		for k := 0; k <= len(c.Text)+10; k++ {
+			_, err := t.Read()
+			if err == io.EOF {
+				fin = "EOF"
+				return
+			}
+			if err != nil {
+				if errs.IsErrTransformFailed(err) {
+					fin = "transform-failed" // a record the schema cannot transform: case not usable
+					return
+				}
+				fin = "error: " + err.Error()
+				return
+			}
+			raw, err := t.RawRecord()
+			if err != nil {
+				fin = "rawrecord: " + err.Error()
+				return
+			}
+			n, _ := raw.Raw().(*idr.Node)
+			if n == nil {
+				fin = "rawrecord: no node"
+				return
+			}
+			got = append(got, vh.CoqTree(n))
+		}
+	}()
+	sum.Hist("api-stream:" + strings.SplitN(fin, ":", 2)[0])
+	if fin == "schema-rejected" || fin == "transform-failed" {
+		return
+	}
+	what := ""
+	switch {
+	case fin != "EOF":
+		what = "Transform over a well-formed document did not end with EOF: " + fin
+	case len(got) != len(want):
+		what = fmt.Sprintf("the Transform surfaces %d records, the target selects %d nodes on the whole document", len(got), len(want))
+	default:
+		for i := range got {
+			if got[i] != want[i] {
+				what = "a record surfaced by the Transform differs from the node selected on the whole document"
+			}
+		}
+	}
+	if what != "" {
+		sum.Fail("through the public Transform API: "+what, map[string]interface{}{"api": true, "case": c},
+			map[string]interface{}{"xpath": c.Target.XPath(), "records": got, "selected_on_whole_document": want})
+	}
 }
 
 // ---- several readers alive at once ---------------------------------------------------------------
@@ -496,7 +586,22 @@ func main() {
 			vh.Done(o)
 			return
 		}
+		var ap struct {
+			Case struct {
+				API  bool  `json:"api"`
+				Case *Case `json:"case"`
+			} `json:"case"`
+		}
+		if json.Unmarshal(b, &ap) == nil && ap.Case.API && ap.Case.Case != nil {
+			rf.Case = *ap.Case.Case
+			apiEvery = 1 // replay of a public-API failure: run the Transform for this case
+		}
 		info := runCase(&rf.Case, sum, cw, true)
+		for _, f := range sum.Failures {
+			if strings.HasPrefix(f.What, "through the public Transform API") {
+				fmt.Println("ORACLE FAILS:", f.What)
+			}
+		}
 		sum.Count(o.Replay, info.Nontrivial)
 		cw.Flush()
 		sum.CaseFiles = cw.Files
